@@ -1105,7 +1105,7 @@ func main() {
 	rep := hx.NewReport("C13", o.Seed, o.Tier)
 	rep.Rule = "histories of <= 16 ops (print/printf to stdout, \"-\", /dev/stdout, > and >> two files, | two commands that append to files; close, fflush, system, getline <file, cmd|getline, getline, exit, run-time error) x Output in {*os.File, plain writer, bufio.Writer of 1..64 bytes} x failure of the underlying writer at every byte offset for a subset; systematic list first, then random; distinct = distinct model request; non-trivial = at least one op executed that writes, closes or starts a process"
 	r := hx.NewRand(o.Seed)
-	nRand, nFail := 260, 6
+	nRand, nFail := 200, 6
 	if o.Tier == "thorough" {
 		nRand, nFail = 12000, 300
 	}
